@@ -483,7 +483,7 @@ def c04(res, tier, rng, wd):
 @check("C10")
 def c10(res, tier, rng, wd):
     thorough = tier == "thorough"
-    design_client(res, "C10", ["AtMostOnce", "NothingPendingAtEnd", "Conservation", "ShutdownOnlyWhenGone"], ["Classified"], thorough)
+    design_client(res, "C10", ["AtMostOnce", "NothingPendingAtEnd", "Conservation", "ShutdownOnlyWhenGone"], ["Classified"], thorough, live=True)
     scs = e2.gen_c10(rng, 3000 if thorough else 400, thorough)
     run_e2(res, "C10", scs, wd, "c10")
     # spec -> impl: behaviours chosen by TLC's simulation of Client.tla, replayed against the production code
@@ -589,7 +589,7 @@ def design_server(res, pid, invariants, thorough=False, neg=False):
                       invariants=["SilentUnlessAddressed"], expect_violation="SilentUnlessAddressed")
 
 
-def design_client(res, pid, invariants, properties, thorough=False, neg=None):
+def design_client(res, pid, invariants, properties, thorough=False, neg=None, live=False):
     base = dict(SCALED)
     base.update({"TxMod": 4, "Bug": '"none"', "NReq": 2, "MaxCmds": 2, "MaxPeer": 2, "MaxTicks": 3, "MaxAttempts": 2,
                  "Cap": 1, "MaxTO": 1, "RMin": 1, "RMax": 2, "WithAbort": "FALSE"})
@@ -607,6 +607,13 @@ def design_client(res, pid, invariants, properties, thorough=False, neg=None):
         big = dict(t)
         big.update({"NReq": 3, "MaxCmds": 3, "MaxPeer": 3, "MaxTicks": 4, "WithAbort": "TRUE", "Cap": 2, "MaxTO": 2})
         vf.design_run(res, pid, "Client_MC-task-big", "Client_MC.tla", "SpecMC", big, invariants, properties, workers=14, xmx="24g")
+    if live:
+        # liveness under weak fairness of the task's own steps: left alone the task comes to rest, owing nothing
+        lp = ["ComesToRest", "EventuallySettled"]
+        vf.design_run(res, pid, "Client_MC-task-liveness", "Client_MC.tla", "FairSpecMC", t, [], lp)
+        if thorough:
+            vf.design_run(res, pid, "Client_MC-serial-liveness", "Client_MC.tla", "FairSpecMC", ser, [], lp)
+            vf.design_run(res, pid, "Client_MC-session-liveness", "Client_MC.tla", "FairSpecMC", sss, [], lp)
     if neg:
         bug, prop, is_inv = neg
         n = dict(sss)
